@@ -487,6 +487,7 @@ package keeper
 //@ ensures [no-deps] E == old(E) && X == old(X)
 
 //@ func Keeper.setValSet
+//@ writes fam(prefix)
 //@ requires blen(prefix) >= 1
 //@ loop 1 invariant [idx] 0 <= _i && _i <= len(nextValidators)
 //@ loop 1 invariant [frame] forall key bytes :: !bpre(prefix, key) ==> S[key] == old(S[key])
@@ -864,3 +865,25 @@ package keeper
 //@ loop 1 step [others-untouched] E == prev(E) && X == prev(X) && (forall key bytes :: key != types.ConsumerIdToInfractionParametersKey(consumerId) && key != types.ConsumerIdToQueuedInfractionParametersKey(consumerId) ==> S[key] == prev(S[key]))
 //@ ensures [fails-only-on-missing-queued-parameters] result != nil && $GetQueuedInfractionParameters.called ==> $GetQueuedInfractionParameters.ret1 != nil
 //@ ensures [no-deps] E == old(E) && X == old(X)
+
+// ---------------------------------------------------------------- C11 / C01: packet failures stop the consumer; the end-blocker's order
+
+//@ func Keeper.OnAcknowledgementPacket
+//@ let c := old(k.GetChannelIdToConsumerId(ctx, packet.SourceChannel))
+//@ ensures [success-ack-ignored] ack.GetError() == "" ==> result == nil && S == old(S) && E == old(E) && X == old(X)
+//@ ensures [error-ack-stops] ack.GetError() != "" && c.1 ==> $StopAndPrepareForConsumerRemoval.called && $StopAndPrepareForConsumerRemoval.consumerId == c.0 && result == $StopAndPrepareForConsumerRemoval.ret
+//@ ensures [unknown-channel] ack.GetError() != "" && !c.1 ==> result != nil && S == old(S) && E == old(E) && X == old(X)
+
+//@ func Keeper.OnTimeoutPacket
+//@ let c := old(k.GetChannelIdToConsumerId(ctx, packet.SourceChannel))
+//@ ensures [timeout-stops] c.1 ==> $StopAndPrepareForConsumerRemoval.called && $StopAndPrepareForConsumerRemoval.consumerId == c.0 && result == $StopAndPrepareForConsumerRemoval.ret
+//@ ensures [unknown-channel] !c.1 ==> result != nil && S == old(S) && E == old(E) && X == old(X)
+
+//@ func Keeper.EndBlockVSU
+//@ requires k.GetBlocksPerEpoch(ctx) > 0
+//@ let e := old(k.GetBlocksPerEpoch(ctx))
+//@ ensures [provider-updates-returned] result1 == nil ==> $ProviderValidatorUpdates.called && $ProviderValidatorUpdates.ret1 == nil && result0 == $ProviderValidatorUpdates.ret0
+//@ ensures [provider-failure-fails] $ProviderValidatorUpdates.called && $ProviderValidatorUpdates.ret1 != nil ==> result1 != nil
+//@ ensures [epoch-boundary-queues-then-sends] (stretch) result1 == nil && height % e == 0 ==> $QueueVSCPackets.called && $QueueVSCPackets.ret == nil && $SendVSCPackets.called
+//@ ensures [mid-epoch-silent] (stretch) height % e != 0 ==> !$QueueVSCPackets.called && !$SendVSCPackets.called
+//@ precall SendVSCPackets [after-queueing] $QueueVSCPackets.called && $QueueVSCPackets.ret == nil
